@@ -303,7 +303,25 @@ class SCondition:
 
 
 class SList(list):
-    """Stand-in for multiprocessing.Manager().list()."""
+    """Stand-in for multiprocessing.Manager().list(): every operation is a round trip to the manager
+    process in reality, hence a scheduling point here."""
+
+    def _yield(self, what):
+        s = cur()
+        if s is not None and s.me() is not None:
+            s.yield_point(("mplist." + what, id(self)))
+
+    def append(self, x):
+        self._yield("append")
+        return list.append(self, x)
+
+    def remove(self, x):
+        self._yield("remove")
+        return list.remove(self, x)
+
+    def __contains__(self, x):
+        self._yield("contains")
+        return list.__contains__(self, x)
 
 
 class _SManager:
